@@ -50,11 +50,17 @@ TTopo == /\ IsEvent("Topo")
               \* "re": the reload of what lstopo printed for the topology in slot lib
               /\ e.id = "re" =>
                    /\ slots.lib.ok = 1
-                   /\ (IF e.kind = "X" THEN slots.lib.xmlret ELSE slots.lib.synret) = 0 =>
+                   \* NO_EXTENDED_TYPES (1) and V1 (4) descriptions are meant for older hwloc releases: this one need not load them
+                   /\ ((IF e.kind = "X" THEN slots.lib.xmlret ELSE slots.lib.synret) = 0
+                       /\ ~(e.kind = "S" /\ e.ok = 0 /\ (slots.lib.synf % 2 = 1 \/ (slots.lib.synf \div 4) % 2 = 1))) =>
                         /\ e.ok = 1
                         /\ IF e.kind = "X" THEN TopoView(e.topo) = TopoView(slots.lib.topo)
                            \* HWLOC_TOPOLOGY_EXPORT_SYNTHETIC_FLAG_IGNORE_MEMORY (8): only the CPU hierarchy is described
-                           ELSE IF (slots.lib.synf \div 8) % 2 = 1 THEN PUView(e.topo) = PUView(slots.lib.topo)
+                           ELSE IF (slots.lib.synf \div 8) % 2 = 1 THEN
+                                  IF (slots.lib.synf \div 2) % 2 = 1 THEN Len(PUView(e.topo)) = Len(PUView(slots.lib.topo))
+                                  ELSE PUView(e.topo) = PUView(slots.lib.topo)
+                           \* HWLOC_TOPOLOGY_EXPORT_SYNTHETIC_FLAG_NO_ATTRS (2): no indexes, no sizes: the shape only
+                           ELSE IF (slots.lib.synf \div 2) % 2 = 1 THEN StructView(e.topo) = StructView(slots.lib.topo)
                            ELSE SynView(e.topo) = SynView(slots.lib.topo)
          /\ last' = NoLast
 
